@@ -20,7 +20,7 @@ def run(ctx):
         vlib.model_check(ctx, FAM, "RpcGuardMC.tla", "RpcGuard_asis.cfg", expect_violation="NoSignUnlessOptIn", timeout=600)
         ctx.exhaustive = True
     if q:
-        envs = [(), tuple(FLAGS), ("UNSAFE_RPC_SIGNING",), ("UNSAFE_RPC_SIGNING_HTTP",), ("UNSAFE_ALLOW_SIGN_INPROC", "UNSAFE_ALLOW_SIGN_IPC")]
+        envs = [(), tuple(FLAGS)] + [(f,) for f in FLAGS]      # none, all, and each opt-in alone (a leak shows on the other transports)
     else:
         envs = [c for n in range(len(FLAGS) + 1) for c in itertools.combinations(FLAGS, n)]
     trace = os.path.join(ctx.work, "rpc.ndjson")
@@ -39,10 +39,11 @@ def run(ctx):
         evs = vlib.read_ndjson(part)
         if sorted(evs[0]["env"]) != sorted(env):
             raise vlib.Infra("driver saw environment %s, expected %s" % (evs[0]["env"], env))
-        # non-vacuity: on an opted-in transport the signing methods do sign
-        for f in env:
-            if f in TR and not any(x["e"] == "call" and x["transport"] == TR[f] and x["signed"] > 0 for x in evs):
-                raise vlib.Infra("no signature observed on opted-in transport %s: the driver no longer reaches the keystore" % TR[f])
+        # driver health (positive control): with every opt-in set, every transport signs; what single opt-ins enable is judged by TLC
+        if len(env) == len(FLAGS):
+            for f in env:
+                if f in TR and not any(x["e"] == "call" and x["transport"] == TR[f] and x["signed"] > 0 for x in evs):
+                    raise vlib.Infra("no signature observed on transport %s with every opt-in set: the driver no longer reaches the keystore" % TR[f])
         return part, int(m.group(2))
     first = one((0, envs[0]))    # warms the build cache, then the rest four at a time
     from concurrent.futures import ThreadPoolExecutor
@@ -57,7 +58,7 @@ def run(ctx):
     ctx.evaluations += len(evs)
     for e in evs:
         if e["e"] == "call":
-            ctx.signatures.add((tuple(e["env"]), e["transport"], e["method"], e["profile"], e["signed"] > 0))
+            ctx.signatures.add((tuple(e["env"]), e["transport"], e["method"], e["profile"], e["batch"], e["signed"] > 0))
     ctx.samples = [e for e in evs if e["e"] == "call" and e["signed"] > 0][:3] + [e for e in evs if e["e"] == "call" and e["method"].startswith("personal_")][:3]
     if v.accepted:
         ctx.traces_validated += len(envs)
